@@ -239,6 +239,7 @@ impl PoolEntry {
 			}
 			pool.dynamic_nested_total.set(total);
 		}
+		pool.count_bootstrap_arguments(method.arguments.len(), bootstrap_method_attribute_index)?;
 		pool.dynamic_depth.set(depth + 1);
 		let arguments: Result<Vec<Loadable>> = (|| {
 			let mut vec = Vec::with_capacity(method.arguments.len());
@@ -269,6 +270,7 @@ impl PoolEntry {
 			bail!("cannot load `InvokeDynamic` pool entry, as there's no bootstrap method at index {}", bootstrap_method_attribute_index);
 		};
 		let handle = method.handle.clone();
+		pool.count_bootstrap_arguments(method.arguments.len(), bootstrap_method_attribute_index)?;
 		let arguments = {
 			let mut vec = Vec::with_capacity(method.arguments.len());
 			for &argument in &method.arguments {
@@ -315,6 +317,8 @@ const MAX_DYNAMIC_DEPTH: usize = 64;
 const MAX_DYNAMIC_NODES: usize = 1 << 12;
 /// Limits how many nested `Dynamic` bootstrap arguments all the uses of `Dynamic` entries in one class file may have in total.
 const MAX_DYNAMIC_NESTED_TOTAL: usize = 1 << 16;
+/// Limits how many bootstrap arguments all the uses of `Dynamic` and `InvokeDynamic` entries in one class file may have in total.
+const MAX_BOOTSTRAP_ARGUMENTS_TOTAL: usize = 1 << 20;
 
 pub(crate) struct PoolRead {
 	/// We store a [`None`] for the zero index, as well as for the upper indices of [`PoolEntry::Double`] and [`PoolEntry::Long`].
@@ -325,6 +329,8 @@ pub(crate) struct PoolRead {
 	dynamic_nodes: Cell<usize>,
 	/// How many `Dynamic` entries were resolved so far as (nested) bootstrap arguments, over all uses in this class file.
 	dynamic_nested_total: Cell<usize>,
+	/// How many bootstrap arguments were stored so far, over all uses of `Dynamic` and `InvokeDynamic` entries in this class file.
+	bootstrap_arguments_total: Cell<usize>,
 }
 
 impl PoolRead {
@@ -435,7 +441,19 @@ impl PoolRead {
 			};
 		}
 
-		Ok(PoolRead { inner: pool, dynamic_depth: Cell::new(0), dynamic_nodes: Cell::new(0), dynamic_nested_total: Cell::new(0) })
+		Ok(PoolRead { inner: pool, dynamic_depth: Cell::new(0), dynamic_nodes: Cell::new(0), dynamic_nested_total: Cell::new(0), bootstrap_arguments_total: Cell::new(0) })
+	}
+
+	/// Every use of a `Dynamic` or `InvokeDynamic` entry (each `ldc`, each `invokedynamic`) stores its own copy of the bootstrap
+	/// arguments: a bootstrap method with many arguments that is used by many instructions takes memory out of all proportion
+	/// to the size of the class file. The stored arguments are counted over the whole class file.
+	fn count_bootstrap_arguments(&self, count: usize, bootstrap_method_attribute_index: u16) -> Result<()> {
+		let total = self.bootstrap_arguments_total.get() + count;
+		if total > MAX_BOOTSTRAP_ARGUMENTS_TOTAL {
+			bail!("the uses of `Dynamic` and `InvokeDynamic` pool entries of this class have more than {MAX_BOOTSTRAP_ARGUMENTS_TOTAL} bootstrap arguments in total, at bootstrap method index {bootstrap_method_attribute_index:?}");
+		}
+		self.bootstrap_arguments_total.set(total);
+		Ok(())
 	}
 
 	fn get(&self, index: u16) -> Result<&PoolEntry> {
